@@ -92,6 +92,8 @@ def run(tier, seed):
                 # and the other way round: a receiver built with the stream's mapping refuses a stream carrying the sibling
                 b.emit("knew z %s sparse sparse%s" % (sp2, ex), "ok"); b.emit("kadd z %s" % f2h(1.0), "ok"); b.emit("kenc ez z 0", "ok")
                 b.emit("kdec k ez %s %s%s" % (kind, spec, ex), "err mapping-mismatch")
+                # ... and a stream carrying both mappings (a concatenation of the two encodings) is refused even when the caller supplies none
+                b.emit("bcat both e ez", "ok"); b.emit("kdec k both %s nil%s" % (kind, ex), "err mapping-mismatch")
         if meta["omit"]:
             b.emit("kdec k e %s nil%s" % (kind, ex), "err missing-mapping")
         builders.append(b)
